@@ -2700,7 +2700,11 @@ public:
     {
         size_type c = 0;
 
-        while (erase_one(key))
+        // the key may be a reference to an entry of this tree (erase(*it)),
+        // whose slot is overwritten or freed by the first erase_one()
+        const key_type keycopy(key);
+
+        while (erase_one(keycopy))
         {
             ++c;
             if (!allow_duplicates)
